@@ -81,6 +81,15 @@ class Manifold:
         """effective parameter bounds, one [lo, hi] per parameter (None = unbounded)"""
         return None
 
+    hint: Optional[float] = None  # rough user-supplied initial parameter: this fraction of the range off the anchor's
+    t0 = 0.0
+
+    def hint_param(self) -> Optional[float]:
+        if self.hint is None:
+            return None
+        lo, hi = self.param_box()[0]
+        return min(max(self.t0 + self.hint * (hi - lo), lo), hi)
+
     nparams = 0
 
 
@@ -250,6 +259,7 @@ class Parabola(Manifold):
         self.c = spec["c"]
         self.size = size
         t0 = spec["t0"]
+        self.t0, self.hint = t0, spec.get("hint")
         self.box = [t0 - spec["lo"], t0 + spec["hi"]]
         self.o = np.asarray(anchor, float) - size * (t0 * self.e1 + self.c * t0 * t0 * self.e2)
 
@@ -260,7 +270,7 @@ class Parabola(Manifold):
     def make_clamp(self, position):
         import classy_blocks as cb
 
-        return cb.CurveClamp(position, cb.AnalyticCurve(self.fn, (self.box[0], self.box[1])))
+        return cb.CurveClamp(position, cb.AnalyticCurve(self.fn, (self.box[0], self.box[1])), self.hint_param())
 
     def _local(self, x):
         d = (np.asarray(x, float) - self.o) / self.size
@@ -309,6 +319,7 @@ class Circle(Manifold):
         self.normal = self.n * spec["nlen"]
         self.r = spec["r"] * size
         t0 = spec["t0"]
+        self.t0, self.hint = t0, spec.get("hint")
         self.box = [t0 - spec["lo"], t0 + spec["hi"]]
         anchor = np.asarray(anchor, float)
         # anchor sits at angle t0 from the rim
@@ -320,7 +331,8 @@ class Circle(Manifold):
     def make_clamp(self, position):
         import classy_blocks as cb
 
-        return cb.CurveClamp(position, cb.CircleCurve(self.center, self.rim, self.normal, (self.box[0], self.box[1])))
+        return cb.CurveClamp(position, cb.CircleCurve(self.center, self.rim, self.normal, (self.box[0], self.box[1])),
+                             self.hint_param())
 
     def _polar(self, x):
         d = np.asarray(x, float) - self.center
@@ -513,6 +525,11 @@ def build(spec: Dict[str, Any], anchor, size: float) -> Manifold:
 
 _pos = st.floats(0.0, 1.0)
 # distance (x size) of the creation position from the point the clamp's initial guess yields: 1e-6 .. 1e-2, either side
+# optional initial_param of a CurveClamp: "a starting point for the search", 1-10 % of the parameter range off
+_hint = st.one_of(
+    st.none(),
+    st.tuples(st.floats(0.01, 0.1), st.sampled_from([1, -1])).map(lambda t: t[1] * t[0]),
+)
 _near = st.one_of(
     st.none(),
     st.tuples(st.floats(-6.0, -2.0), st.sampled_from([1, -1])).map(lambda t: t[1] * 10.0 ** t[0]),
@@ -573,7 +590,7 @@ def spec_plane(near_guess: bool = False):
     )
 
 
-def spec_curve(reach: float = 1.0):
+def spec_curve(reach: float = 1.0, hinted: bool = False):
     hw = _halfwidths(reach)
     return st.fixed_dictionaries(
         {
@@ -582,12 +599,13 @@ def spec_curve(reach: float = 1.0):
             "b": vec3,
             "c": st.floats(-0.5, 0.5),
             "t0": st.floats(-1.0, 1.0),
+            "hint": _hint if hinted else st.none(),
             "hw": hw,
         }
     ).map(lambda d: {**{k: v for k, v in d.items() if k != "hw"}, "lo": d["hw"][0], "hi": d["hw"][1]})
 
 
-def spec_circle(reach: float = 1.0):
+def spec_circle(reach: float = 1.0, hinted: bool = False):
     hw = _halfwidths(reach)
     return st.fixed_dictionaries(
         {
@@ -597,6 +615,7 @@ def spec_circle(reach: float = 1.0):
             "nlen": nlen,
             "r": st.floats(0.6, 3.0),
             "t0": st.floats(0.0, 2 * math.pi),
+            "hint": _hint if hinted else st.none(),
             "hw": hw,
         }
     ).map(lambda d: {**{k: v for k, v in d.items() if k != "hw"}, "lo": d["hw"][0], "hi": d["hw"][1]})
